@@ -168,6 +168,67 @@ def run_schedule(spec, roots, jobs, schedule, ref_vals, clear_layer=None):
     return {'schedule': ''.join(map(str, schedule)), 'results': results, 'unlocked': list(UNLOCKED), 'stuck': stuck, 'points': SCHED.points}
 
 
+def compile_race(spec, roots, jobs, ref_vals, max_points=6000):
+    """first calls of two threads on a pipeline object nobody has used yet: thread 0 is paused after its N-th executed line of
+    connectome code, thread 1 runs to the end meanwhile, then thread 0 goes on; N = 0, 1, 2, ... until thread 0 needs fewer lines"""
+    import connectome
+    prefix = os.path.dirname(connectome.__file__)
+    out = []
+    n = 0
+    step = 1
+    while n < max_points:
+        for r in roots:
+            shutil.rmtree(r, ignore_errors=True)
+        SCHED.enabled = False
+        layer, layers = P.build(spec, roots)
+        results = [None, None]
+        reached = threading.Event()
+        resume = threading.Event()
+        count = [0]
+
+        def tracer(frame, event, arg):
+            if not frame.f_code.co_filename.startswith(prefix):
+                return None
+
+            def local(frame, event, arg):
+                if event == 'line':
+                    count[0] += 1
+                    if count[0] == n + 1 and not reached.is_set():
+                        reached.set()
+                        resume.wait(10)
+                return local
+            return local
+
+        def work(i, field, key):
+            if i == 0:
+                sys.settrace(tracer)
+            try:
+                results[i] = {'val': to_json(getattr(layer, field)(key))}
+            except BaseException as e:  # noqa
+                results[i] = {'exc': f'{type(e).__name__}: {e}'[:200]}
+            finally:
+                if i == 0:
+                    sys.settrace(None)
+                    reached.set()
+
+        t0 = threading.Thread(target=work, args=(0,) + tuple(jobs[0]))
+        t0.start()
+        reached.wait(10)
+        t1 = threading.Thread(target=work, args=(1,) + tuple(jobs[1]))
+        t1.start()
+        t1.join(10)
+        resume.set()
+        t0.join(10)
+        bad = [i for i in (0, 1) if results[i] is None or results[i].get('val') != ref_vals[i]]
+        if bad:
+            out.append({'pause_after_line': n, 'results': results})
+        if count[0] <= n:
+            break
+        n += step
+        step = 1 + n // 80
+    return {'points': n, 'bad': out[:3]}
+
+
 def main():
     ap = argparse.ArgumentParser()
     ap.add_argument('--seed', type=int, default=0)
@@ -209,7 +270,14 @@ def main():
         else:
             schedules = [tuple(rnd.randrange(3) for _ in range(a.len + 3)) for _ in range(150)]
         runs = [run_schedule(spec, roots, jobs, s, ref_vals) for s in schedules]
-        out.append({'spec': spec, 'jobs': jobs, 'ref': ref_vals, 'runs': runs})
+        rec = {'spec': spec, 'jobs': jobs, 'ref': ref_vals, 'runs': runs}
+        if nthreads == 2 and ci % 3 == 0:
+            # the two threads ask for different fields, so that the second one needs an entry the first may not have published yet
+            jobs_cr = [(fields[0], ids[0]), (fields[-1], ids[-1])] if ci % 2 == 0 else [(fields[-1], ids[0]), (fields[0], ids[-1])]
+            SCHED.enabled = False
+            ref_cr = [to_json(getattr(ref, f)(k)) for f, k in jobs_cr]
+            rec['compile_race'] = dict(compile_race(spec, roots, jobs_cr, ref_cr), jobs=jobs_cr)
+        out.append(rec)
         for r in roots:
             shutil.rmtree(r, ignore_errors=True)
     dump({'cases': out}, a.out)
